@@ -77,6 +77,31 @@ func c09(c *Ctx, p *Prog) {
 				if fv, ok := x.X.(*ssa.FreeVar); ok && x.Op == token.MUL {
 					call = freeVarSourceCall(fn, fv)
 				}
+				// a field of a sorter object: every store to that field in the package carries the same call's result
+				if fa, ok := x.X.(*ssa.FieldAddr); ok && x.Op == token.MUL {
+					if fld, _ := fieldOfAddr(fa); fld != nil {
+						var calls []*ssa.Call
+						okAll := true
+						for _, g := range p.Funcs("benchproc") {
+							for _, st := range storesToField(g, fld) {
+								if cc, ok := st.Val.(*ssa.Call); ok {
+									calls = append(calls, cc)
+								} else {
+									okAll = false
+								}
+							}
+						}
+						if okAll && len(calls) >= 1 {
+							call = calls[0]
+							for _, cc := range calls[1:] {
+								if calleeObj(&cc.Call) != calleeObj(&call.Call) {
+									call = nil
+									break
+								}
+							}
+						}
+					}
+				}
 			}
 			k := fnName(fn) + ":comparison-fields"
 			if call == nil {
